@@ -159,10 +159,10 @@ pub fn seq_case(min: usize, max: usize, max_recs: usize) -> BoxedStrategy<Case> 
 
 pub fn run(ctx: &Ctx) {
     ctx.replay_findings(&oracle);
-    ctx.search("all-partitions-n<=8", ctx.n(30_000, 600_000), &|| seq_case(1, 7, 3), &oracle);
-    ctx.search("sampled-partitions-n<=12", ctx.n(4_000, 100_000), &|| seq_case(8, 11, 2), &oracle);
+    ctx.search("all-partitions-n<=8", ctx.n(60_000, 5_000_000), &|| seq_case(1, 7, 3), &oracle);
+    ctx.search("sampled-partitions-n<=12", ctx.n(6_000, 600_000), &|| seq_case(8, 11, 2), &oracle);
     if ctx.thorough() {
-        ctx.search("long-sequences", 2_000, &|| seq_case(50, 300, 1), &oracle);
+        ctx.search("long-sequences", 20_000, &|| seq_case(50, 300, 1), &oracle);
     } else {
         ctx.search("long-sequences", ctx.n(150, 150), &|| seq_case(30, 120, 1), &oracle);
     }
